@@ -15,7 +15,7 @@ import (
 )
 
 func init() {
-	register("C19", "Decides the representability clauses of parameter handling: (R19.1) every non-constant integer conversion in the module that narrows (or changes sign at equal width) is examined; one whose operand originates from a user parameter (a TracerouteParams field, an HTTP query value, a CLI flag, a parsed port) must, on every CFG path to it, be dominated by comparisons on the UN-narrowed value that confine it to the target type and whose failing edge does not reach the conversion; other narrowings must be discharged by a mask/shift, by being the re-narrowing of a widened value, by a small interval domain, or by a reviewed table entry; (R19.2) no + - * evaluated in an 8/16-bit type reaches a make size, an index, a slice bound or a loop bound unless the interval domain shows it cannot wrap; (R19.3) the protocol switch ends in an error-returning default (the TCP-method switch is C20 R20.1), the default port is substituted exactly when Port == 0, and the address/port handed to every protocol constructor come from parseTarget's result; (R19.4) the TTL bounds travel from the parameters to the engines' loop bounds through conversions only and e2e probes set MinTTL = MaxTTL. That accepted extreme values work end to end needs execution and is not decided; DNS resolution is outside. (R19.5) The HTTP layer hands the library exactly the integers the request states: every integer field of the parameters literal is a query decoder's result (converted or scaled by a constant at most), a decoder returns the parsed number itself or, only when the key is absent or not a number, its default, and the handler passes the literal unmodified to RunTraceroute behind err == nil. (R19.6) On the plumbing path (front end and per-protocol packages) every named parameter is used and every constructor stores each of its parameters in the value it returns or hands it to a call. (R19.5b) The boolean query decoder returns strconv.ParseBool's verdict or the default. (R19.3) RunTraceroute starts the runs with the caller's parameters unmodified (no field defaulted or rewritten before the range validation); parseTarget may return netip.ParseAddrPort's result only behind a non-zero port test.", runC19)
+	register("C19", "Decides the representability clauses of parameter handling: (R19.1) every non-constant integer conversion in the module that narrows (or changes sign at equal width) is examined; one whose operand originates from a user parameter (a TracerouteParams field, an HTTP query value, a CLI flag, a parsed port) must, on every CFG path to it, be dominated by comparisons on the UN-narrowed value that confine it to the target type and whose failing edge does not reach the conversion; other narrowings must be discharged by a mask/shift, by being the re-narrowing of a widened value, by a small interval domain, or by a reviewed table entry; (R19.2) no + - * evaluated in an 8/16-bit type reaches a make size, an index, a slice bound or a loop bound unless the interval domain shows it cannot wrap; (R19.3) the protocol switch ends in an error-returning default (the TCP-method switch is C20 R20.1), the default port is substituted exactly when Port == 0, and the address/port handed to every protocol constructor come from parseTarget's result; (R19.4) the TTL bounds travel from the parameters to the engines' loop bounds through conversions only and e2e probes set MinTTL = MaxTTL. That accepted extreme values work end to end needs execution and is not decided; DNS resolution is outside. (R19.5) The HTTP layer hands the library exactly the integers the request states: every integer field of the parameters literal is a query decoder's result (converted or scaled by a constant at most), a decoder returns the parsed number itself or, only when the key is absent or not a number, its default, and the handler passes the literal unmodified to RunTraceroute behind err == nil. (R19.6) On the plumbing path (front end and per-protocol packages) every named parameter is used and every constructor stores each of its parameters in the value it returns or hands it to a call. (R19.5b) The boolean query decoder returns strconv.ParseBool's verdict or the default. (R19.3) RunTraceroute starts the runs with the caller's parameters unmodified (no field defaulted or rewritten before the range validation); parseTarget may return netip.ParseAddrPort's result only behind a non-zero port test. (R19.4) Both engines reach the method that rejects MinTTL > MaxTTL and MinTTL < 1 (a same-named method on an embedding struct would silently replace it).", runC19)
 	darwinRules["C19"] = runC19
 }
 
